@@ -167,8 +167,10 @@ def random_doc(r):
             "resource_ids": [0x0101021B, 0x0101021C, 0x01010003][:r.randint(0, 3)]}
 
 
-def manifest_doc(r):
-    """an AndroidManifest-like document: package, version attributes and a uses-sdk element whose numbers are boundary values"""
+def manifest_doc(r, string_names=None):
+    """an AndroidManifest-like document: package, version attributes and a uses-sdk element whose numbers are boundary values;
+    with string_names (names of string resources of the archive's resource table) also <permission> elements whose
+    attributes NAME a string resource in plain text ("@string/..."), which APK() resolves through resources.arsc"""
     big = [0, 1, 19, 33, 34, 1000, 0x7FFF, 0x10000, 0x7FFFFFFF, 0xFFFFFFFF, 0x80000000, r.randrange(1 << 32)]
     def num():
         return ["int", r.choice(big)] if r.random() < 0.7 else str(r.choice(big))
@@ -185,6 +187,16 @@ def manifest_doc(r):
         root["children"].append({"name": "uses-permission", "ns": None, "children": [],
                                  "attrs": [{"ns": ANDROID, "name": "name", "value": r.choice(["android.permission.INTERNET", "x", "", "a" * 200])},
                                            {"ns": ANDROID, "name": "maxSdkVersion", "value": num()}]})
+    if string_names:
+        for _ in range(r.randint(1, 3)):
+            def alias():
+                k = r.random()
+                if k < 0.75:
+                    return "@string/" + r.choice(["", "x", "/"]) + r.choice(list(string_names) + ["missing"])
+                return r.choice(["plain", "", "@string/", "@string", ["ref", 0x7F020000 + r.randrange(4)]])
+            root["children"].append({"name": "permission", "ns": None, "children": [], "attrs": [
+                {"ns": ANDROID, "name": n, "value": alias()}
+                for n in ("name", "label", "description", "permissionGroup", "protectionLevel") if r.random() < 0.8]})
     app = {"name": "application", "ns": None, "attrs": [{"ns": ANDROID, "name": "label", "value": r.choice(["app", ["ref", 0x7F010000]])}],
            "children": [{"name": "activity", "ns": None, "attrs": [{"ns": ANDROID, "name": "name", "value": ".Main"}], "children": []}]}
     root["children"].append(app)
